@@ -2,6 +2,7 @@ mod codec;
 mod orch;
 mod rng;
 mod sys;
+mod twins;
 
 use std::io::Write;
 
@@ -26,6 +27,7 @@ fn main() {
             Some(p) => codec::replay(p, &mut *out),
             None => codec::generate(seed, n, &mut *out),
         },
+        "twins" => twins::generate(seed, n, &mut *out),
         "sys" => match arg(&args, "--replay") {
             Some(p) => sys::replay(p, &mut *out),
             None => sys::generate(seed, arg(&args, "--first").and_then(|s| s.parse().ok()).unwrap_or(0), n, arg(&args, "--profile").unwrap_or("mixed"), &mut *out),
